@@ -220,6 +220,11 @@ pub fn main_with(entries: Vec<GrammarEntry>) {
             items.push((gi, ri));
         }
     }
+    // optional thinning of the work list (used by the slow interpreters)
+    let offset = args.u64("rule-offset", 0) as usize;
+    if let Some(max) = args.get("max-rules").and_then(|s| s.parse::<usize>().ok()) {
+        items = items.into_iter().skip(offset).take(max).collect();
+    }
     let shared = Shared { models: Mutex::new(HashMap::new()) };
     let next = AtomicUsize::new(0);
     let col = Collector::new();
